@@ -1,10 +1,142 @@
-(* C09 -- property theorems only (temporary skeleton) *)
+(* C09 -- B-spline fit is the weighted least-squares optimum; failure is a status code.
+   Property theorems only; each is closed by `exact` and followed by Print Assumptions.
+   Models: BSpline/Eval.v (intrv, bsplvn), BSpline/Fit.v (design, grad/Avec from the data, fit_dense =
+   certificate-checked dense solve, fit_fast = evaluator used by the correspondence run, checkers).
+   chi2 D c = sum_i w_i (row_i . c - y_i)^2 with row_i the design row of x_i, i.e. sum invvar*(spline(x)-y)^2. *)
 From Coq Require Import QArith List Bool Arith.
 Import ListNotations.
-From PV Require Import Lib.WLS BSpline.Eval BSpline.Fit BSpline.FitProofs C09.Model C09.Proofs.
+From PV Require Import Lib.WLS BSpline.Eval BSpline.Fit BSpline.CoxDeBoor BSpline.FitProofs BSpline.BandProofs C09.Model C09.Proofs.
 Open Scope Q_scope.
 
+(* the fit's coefficients minimise the weighted chi-square over ALL coefficient vectors *)
+Theorem C09_bspline_fit_optimal : forall gb k xs ys ws c,
+  (1 <= k)%nat -> (2 * k <= length gb)%nat -> sortedQ xs = true -> Forall (fun w => 0 <= w) ws ->
+  fit_coeff gb k xs ys ws = Some c ->
+  forall z, length z = (length gb - k)%nat ->
+  chi2 (fit_obs gb k xs ys ws) c <= chi2 (fit_obs gb k xs ys ws) z.
+Proof. exact bspline_fit_optimal. Qed.
+Print Assumptions C09_bspline_fit_optimal.
+
+(* generic form (instance of Lib.WLS.normal_eq_optimal), for the certified and for the evaluation solver *)
 Theorem C09_fit_optimal : forall m D x, wf m D -> fit_dense m D = Some x ->
   forall z, length z = m -> chi2 D x <= chi2 D z.
 Proof. exact fit_optimal. Qed.
 Print Assumptions C09_fit_optimal.
+
+Theorem C09_fit_fast_optimal : forall m D x, wf m D -> fit_fast m D = Some x ->
+  forall z, length z = m -> chi2 D x <= chi2 D z.
+Proof. exact fit_fast_optimal. Qed.
+Print Assumptions C09_fit_fast_optimal.
+
+(* what a returned vector satisfies: normal equations hold exactly and the normal matrix is invertible *)
+Theorem C09_fit_dense_sound : forall m D x, fit_dense m D = Some x ->
+  length x = m /\ Forall (fun g => g == 0) (grad m D x) /\
+  (exists Binv : list (list Q), length Binv = m /\
+     forall j, (j < m)%nat -> Forall2 Qeq (Avec m D (nth j Binv [])) (unit m j)).
+Proof. exact fit_dense_sound. Qed.
+Print Assumptions C09_fit_dense_sound.
+
+(* the optimum is unique; the evaluation solver returns the same coefficients *)
+Theorem C09_fit_unique : forall m D x z, rows_len m D -> fit_dense m D = Some x ->
+  length z = m -> Forall (fun g => g == 0) (grad m D z) -> Forall2 Qeq z x.
+Proof. exact fit_unique. Qed.
+Print Assumptions C09_fit_unique.
+
+Theorem C09_fit_fast_agrees : forall m D x z, rows_len m D -> fit_dense m D = Some x -> fit_fast m D = Some z ->
+  Forall2 Qeq z x.
+Proof. exact fit_fast_agrees. Qed.
+Print Assumptions C09_fit_fast_agrees.
+
+(* linear in y *)
+Theorem C09_fit_linear_in_y : forall m rows ws y1 y2 a b x1 x2 x3,
+  Forall (fun r : list Q => length r = m) rows -> length y1 = length y2 ->
+  fit_dense m (mk_obs rows ws y1) = Some x1 ->
+  fit_dense m (mk_obs rows ws y2) = Some x2 ->
+  fit_dense m (mk_obs rows ws (vadd (vscale a y1) (vscale b y2))) = Some x3 ->
+  Forall2 Qeq x3 (vadd (vscale a x1) (vscale b x2)).
+Proof. exact fit_linear_in_y. Qed.
+Print Assumptions C09_fit_linear_in_y.
+
+(* unchanged when y is altered at zero-weight points *)
+Theorem C09_fit_ignores_zero_weight_y : forall m rows ws y1 y2 x1 x2,
+  Forall (fun r : list Q => length r = m) rows -> length y1 = length y2 ->
+  (forall i, nth i ws 0 == 0 \/ nth i y1 0 == nth i y2 0) ->
+  fit_dense m (mk_obs rows ws y1) = Some x1 ->
+  fit_dense m (mk_obs rows ws y2) = Some x2 ->
+  Forall2 Qeq x1 x2.
+Proof. exact fit_ignores_zero_weight_y. Qed.
+Print Assumptions C09_fit_ignores_zero_weight_y.
+
+(* anything in the span of the basis is reproduced exactly (polynomials of degree < k are in the span) *)
+Theorem C09_fit_exact_recovery : forall m rows ws ys c x,
+  Forall (fun r : list Q => length r = m) rows -> length c = m ->
+  Forall2 Qeq ys (map (fun r => dot r c) rows) ->
+  fit_dense m (mk_obs rows ws ys) = Some x ->
+  Forall2 Qeq x c.
+Proof. exact fit_exact_recovery. Qed.
+Print Assumptions C09_fit_exact_recovery.
+
+(* constants are in the span: partition of unity of the BSPLVN basis *)
+Theorem C09_constant_in_span : forall gb k x l c,
+  nondecr gb -> (1 <= k)%nat -> (k - 1 <= l)%nat -> (l + k <= length gb)%nat ->
+  nthQ gb l < nthQ gb (S l) ->
+  let m := (length gb - k)%nat in
+  (l <= m - 1)%nat -> (1 <= m)%nat ->
+  dot (design_row gb k m x l) (repeat c m) == c.
+Proof. exact constant_in_span. Qed.
+Print Assumptions C09_constant_in_span.
+
+Theorem C09_fit_reproduces_constant : forall m rows ws c x,
+  Forall (fun r : list Q => length r = m) rows ->
+  Forall (fun r => dot r (repeat c m) == c) rows ->
+  fit_dense m (mk_obs rows ws (map (fun _ => c) rows)) = Some x ->
+  Forall2 Qeq x (repeat c m).
+Proof. exact fit_reproduces_constant. Qed.
+Print Assumptions C09_fit_reproduces_constant.
+
+(* the banded assembly of fit() (per-interval products scattered through bi/bo) holds exactly the lower band
+   of the normal matrix A^T W A, zero padded -- for all data, sorted or not *)
+Theorem C09_band_assemble_is_normal_matrix : forall gb k xs ys ws,
+  (1 <= k)%nat -> (2 * k <= length gb)%nat -> length ws = length xs -> length ys = length xs ->
+  let m := (length gb - k)%nat in
+  forall r c, (r < k)%nat -> (c < m + k)%nat ->
+  nthQ (nth r (band_assemble gb k xs ws) []) c ==
+  nthQ (nth r (band_of k m (normal_matrix m (fit_obs gb k xs ys ws))) []) c.
+Proof. exact band_assemble_is_normal_matrix. Qed.
+Print Assumptions C09_band_assemble_is_normal_matrix.
+
+(* why the diagonal screening is the right ill-posedness signal: a zero diagonal entry of A^T W A means
+   that column j of sqrt(W) A vanishes (coefficient j is not supported by any weighted datum) *)
+Theorem C09_zero_diagonal_singular : forall m D j, wf m D -> (j < m)%nat ->
+  nth j (Avec m D (unit m j)) 0 == 0 ->
+  Forall (fun o : obs => let '(r, w, y) := o in w * (nth j r 0 * nth j r 0) == 0) D.
+Proof. exact zero_diagonal_singular. Qed.
+Print Assumptions C09_zero_diagonal_singular.
+
+(* the Cholesky pair: A = L L^T, L y = b, L^T x = y  ==>  A x = b ; and forward substitution solves L y = b *)
+Theorem C09_llt_solves : forall (n : nat) (L A : nat -> nat -> Q) (x y b : nat -> Q),
+  (forall i j, (i < n)%nat -> (j < n)%nat -> A i j == sumf (fun c => L i c * L j c) n) ->
+  (forall i, (i < n)%nat -> sumf (fun c => L i c * y c) n == b i) ->
+  (forall c, (c < n)%nat -> sumf (fun j => L j c * x j) n == y c) ->
+  forall i, (i < n)%nat -> sumf (fun j => A i j * x j) n == b i.
+Proof. exact llt_solves. Qed.
+Print Assumptions C09_llt_solves.
+
+Theorem C09_forward_substitution_solves : forall (n : nat) (L : nat -> nat -> Q) (b : nat -> Q),
+  (forall i c, (i < c)%nat -> L i c == 0) ->
+  (forall i, (i < n)%nat -> ~ L i i == 0) ->
+  let y := fun c => nth c (fwd_list L b n) 0 in
+  forall i, (i < n)%nat -> sumf (fun c => L i c * y c) n == b i.
+Proof. exact forward_substitution_solves. Qed.
+Print Assumptions C09_forward_substitution_solves.
+
+(* non-vacuity: a concrete cubic fit is solved by the certified solver and recovers a quadratic exactly *)
+Example C09_example_recovery :
+  let xs := [0; 1#2; 1; 3#2; 2; 5#2; 3; 7#2; 4; 9#2; 5; 11#2; 6; 13#2; 7; 15#2; 8; 17#2; 9] in
+  let gb := knots_of_option (ONbkpts 4) xs 4 1 in
+  let ys := map (fun x => x * x - 3 * x + 1) xs in
+  match fit_coeff gb 4 xs ys (map (fun _ => 1) xs) with
+  | Some c => all2 Qeq_bool (yfit_of gb 4 c xs) ys
+  | None => false
+  end = true.
+Proof. vm_compute. reflexivity. Qed.
